@@ -233,6 +233,30 @@ class Recorder:
 REC = None
 
 
+ALL_TLOCKS = []
+
+
+def leaked_locks():
+    """Names of lock proxies that another thread cannot take right now (called from the
+    main thread after both program threads have finished)."""
+    out = []
+    for l in list(ALL_TLOCKS):
+        res = {}
+
+        def probe(l=l, res=res):
+            ok = l.real.acquire(timeout=0.3)
+            if ok:
+                l.real.release()
+            res["ok"] = ok
+
+        th = threading.Thread(target=probe, daemon=True)
+        th.start()
+        th.join(2.0)
+        if not res.get("ok"):
+            out.append(l.name)
+    return sorted(out)
+
+
 class TLock:
     """Logging proxy around a real RLock; in replay mode acquisition goes through the
     baton scheduler and uses a timeout so that a real deadlock is detected."""
@@ -240,6 +264,7 @@ class TLock:
     def __init__(self, name):
         self.name = name
         self.real = threading.RLock()
+        ALL_TLOCKS.append(self)
 
     def acquire(self, blocking=True, timeout=-1):
         if REC is not None:
@@ -316,6 +341,7 @@ def install_locks(env):
     """Replace every lock of the library classes by logging proxies."""
     from . import env_model
 
+    del ALL_TLOCKS[:]
     for c in env_model.all_lib_classes():
         d = c.__dict__
         if "_cls_lock" in d:
